@@ -680,6 +680,7 @@ TRACE_FOCUS = {
     "C11": ["result", "state", "invocation.info"], "C12": ["result", "state", "invocation.info"],
     "C13": ["result", "responses", "state"],
     "C14": ["result", "state", "invocation.reads", "panic", "modules"], "C15": ["result", "state", "invocation.reads", "panic"],
+    "C16": ["result", "state", "invocation.reads", "panic"],
 }
 
 
@@ -868,11 +869,11 @@ def check_staking(tier, ev):
                    env={"MTV_FOCUS": c["focus"]})
     # staking in composition (Chain): the same keepers driven by users AND contracts, as sub-messages that are
     # committed or rolled back, with payouts at block updates and rewards minted through the router
-    if ev.pid in ("C14", "C15"):
+    if ev.pid in ("C14", "C15", "C16"):
         mc_and_replay(ev, "mc/MC_Chain.tla", f"mc/MC_Chain_stake_{tier}.cfg", "chain", 3400, [], coverage=False,
                       env={"MTV_FOCUS": "post.sk,post.unbonding,post.bank,reads.sk,reads.bank,ok,panic,events,rlog", "MTV_ALWAYS": ""},
                       need_features=["staking_message", "pending_unbonding_after", "nonzero_reward_visible", "payout_at_block_update",
-                                     "staking_message_from_contract_ok"])
+                                     "staking_message_from_contract_ok", "slash_composed", "slash_with_pending_unbonding_composed"])
         # impl -> spec: random mixed histories (contracts, bank, staking, block updates) on the real keepers, validated by TLC
         chain_trace_stage(ev, 30 if tier == "quick" else 300, 25, stake=True)
     # design-level sanity: the two behaviours of the code before its repair are rejected by TLC
